@@ -40,13 +40,22 @@ func c08MapScripts(k *h.Case, g *spec.Gen) *spec.MapScripts {
 			e.Body = g.ScriptBody(m.Name + "_" + e.Type)
 		case 2:
 			rows := r.IntN(7)
+			if r.IntN(12) == 0 {
+				rows = 10 + r.IntN(6) // long tables: two-digit row indices
+			}
 			for j := 0; j < rows; j++ {
 				row := &spec.MSRow{ID: g.Prog.NewID(), Var: []string{g.Name("VAR_T")}, Value: []string{fmt.Sprint(r.IntN(9))}}
-				switch r.IntN(5) {
+				switch r.IntN(7) {
 				case 0:
 					row.Value = []string{g.Name("VAL_"), "+", "1"}
 				case 1:
 					row.Var = []string{"VAR_BASE", "+", fmt.Sprint(j)}
+				case 2:
+					// constants (defined at the top of the file) inside multi-token values
+					row.Value = []string{"$TBL_BASE", "+", fmt.Sprint(j)}
+				case 3:
+					row.Var = []string{"$TBL_VAR"}
+					row.Value = []string{"(", "$TBL_BASE", ")", "*", "2"}
 				}
 				if r.IntN(2) == 0 {
 					row.Body = g.ScriptBody(fmt.Sprintf("%s_%s_%d", m.Name, e.Type, j))
@@ -84,6 +93,7 @@ func runC08(ctx *h.Ctx) int {
 		g := spec.NewGen(k.R, prof)
 		prog := g.Prog
 		prog.Switches["GAME"] = []string{"RUBY", "SAPPHIRE", "1", "zz"}[k.R.IntN(4)]
+		prog.Items = append(prog.Items, &spec.Const{ID: prog.NewID(), Name: "TBL_BASE", Value: []string{"4"}}, &spec.Const{ID: prog.NewID(), Name: "TBL_VAR", Value: []string{"VAR_TEMP_0", "+", "1"}})
 		var maps []*spec.MapScripts
 		n := 1 + k.R.IntN(2)
 		for i := 0; i < n; i++ {
@@ -202,7 +212,7 @@ func runC08(ctx *h.Ctx) int {
 				for i, r := range e.Rows {
 					l := rows[i]
 					rest, lbl := asm.SplitLast(l.Args)
-					wantVV := strings.Join(r.Var, " ") + ", " + strings.Join(r.Value, " ")
+					wantVV := expandC08(strings.Join(r.Var, " ") + ", " + strings.Join(r.Value, " "))
 					if l.Op != "map_script_2" || normLine(rest) != normLine(wantVV) {
 						bad("table-row", "table %s row %d: %q, expected map_script_2 %s, <script>", tl, i, strings.TrimSpace(l.Text), wantVV)
 						return
@@ -297,4 +307,10 @@ func runC08(ctx *h.Ctx) int {
 		"mapscripts statements with 0..8 entries mixing plain (T: Label), inline (T { body }) and table (T [ var, value: Label | var, value { body } ]) entries in any order, 0..6 rows, multi-token vars/values, both scopes; inline bodies with control flow, inline text and poryswitch. Oracle: header lists plain+inline entries in source order, then table entries in source order, then .byte 0; each table label defined once, local, rows in source order with the written var/value, then .2byte 0; every inline label (read from the header/table, not from a naming rule) defined once and local; VM trace from each inline label equals the reference run of the body and the VM trace of the same body compiled as a script statement. distinct = entry-kind/row-kind signature",
 		ctx.N(300, 3000),
 		[]string{"map script types are distinct within one statement"})
+}
+
+// expandC08 substitutes the two constants the C08 generator defines.
+func expandC08(s string) string {
+	s = strings.ReplaceAll(s, "$TBL_BASE", "4")
+	return strings.ReplaceAll(s, "$TBL_VAR", "VAR_TEMP_0 + 1")
 }
